@@ -51,6 +51,13 @@ SUMMARY = {
     "C14-3": ("`divdiff` returns 0 when the knot span is below FLT_EPSILON", "axis in small absolute units (ns-scale knots in seconds)", "missed at first; UW-6 (no absolute tolerance in the scale-equivariant kernels) added — it also catches C14-1"),
     "C16-3": ("blank-trimming loop in the aux reader tests `value[vlen-1]` instead of `vbegin[vlen-1]`", "unpadded value whose second-to-last character is a blank, then a round trip", "missed at first; KM-2 (one start/length view) added; a correct trim stays silent"),
     "C08-3": ("`write_fits` wraps `write_fits_core` in try/catch(...) that deletes the file and does not re-raise", "a transient write failure during the bulk coefficient write (4-d/5-d tables)", "missed at first; ED-5 (no handler on the write path absorbs a failure) added"),
+    "C02-3": ("zero-fill branch `derivatives[n] >= order[n]` added to both `ndsplineeval_deriv`s", "derivative order equal to the spline order (>= 2): non-zero piecewise constant returned as 0", "missed at first; CL-7 added (a shortcut confined to `>` stays silent)"),
+    "C03-3": ("one of the three basis kernels handles the margins differently from the other two (delivered against the tree before D35; adapted: `else` restored in `bspline_nonzero` only)", "minimal-knot dimension (nknots = 2*order+2), point above the upper extent: gradient paths differ from plain paths", "the agent's tree exposed D35 itself; adapted seed caught by KB-2b (now also run under C03)"),
+    "C04-3": ("bisection step `x < knots[c]` -> `x <= knots[c]`", "coordinate equal to a repeated knot inside the searched range: the search never ends", "caught (SC-2/SC-5)"),
+    "C05-3": ("evaluator gradient guard `ndim+1 > MAXDIM` -> `ndim > MAXDIM`", "8-dimensional table through the evaluator's gradient: 9 lanes into 8-lane buffers", "caught (KB-3)"),
+    "C06-3": ("`strcmp(\"END\", key)` -> `strncmp(\"END\", key, 3)` in `reservedFitsKeyword`", "auxiliary keys beginning with END (ENDTIME ...): refused by write_key, dropped by the reader", "missed at first; FS-5b (reserved families frozen with their kind of match) added"),
+    "C10-3": ("`fitmat->stype = 1` set in `glamfit_complex` before the solve", "monotonic fit whose upper region has no data: the solver drops the lower triangle and never releases constrained coefficients", "missed at first; GW-5 (system handed over untouched) added"),
+    "C15-3": ("`orders_are` matches the order list as a multiset (`std::is_permutation`)", "table {2,2,2,3,2,2} permuted so that the order-3 dimension is last, evaluated through the evaluator object", "missed at first; DP-8 (admission predicate is position-wise) added"),
     "C20-2": ("`extents[0] = nullptr` removed from the reader", "allocation failure at the 7th request with a non-zero-filling allocator", "caught"),
 }
 try:
